@@ -267,6 +267,12 @@ def run(out, tier, seed):
         for fmt in ("xml", "pretty-xml", "trix", "json-ld"):
             if xmlok or fmt == "json-ld":
                 jobs.append({"cfg": {}, "events": [{"op": "wf", "fmt": fmt, "quads_in": q, "family": name.split(":")[0]}]})
+    # serializer options that end up as markup: a base / xml_base with characters that are markup in an attribute value (a query string with &)
+    bq = [[shapes.I("http://ex.example/a?x=1&y=2#s"), shapes.P1, shapes.L("v"), {"k": "default"}], [shapes.S1, shapes.P2, shapes.I("http://ex.example/a?x=1&y=2"), {"k": "default"}]]
+    for b in ("http://ex.example/a?x=1&y=2", "http://ex.example/a?x='1'", "http://ex.example/dir/"):
+        for fmt in ("xml", "pretty-xml", "trix", "json-ld"):
+            for kw in ({"base": b}, {"xml_base": b}) if fmt in ("xml", "pretty-xml") else ({"base": b},):
+                jobs.append({"cfg": {}, "events": [{"op": "wf", "fmt": fmt, "quads_in": bq, "family": "opt:" + ",".join(kw), "ser_kw": kw}]})
     # blank nodes whose identifiers were chosen by the user (or kept from a document): legal labels beyond ASCII, labels that differ in one
     # accent, digits first, dots and hyphens inside; each is one node in the output and none is merged with another
     def KB(v):
